@@ -128,6 +128,26 @@ def flip(rng, hexstr):
     return bytes(b).hex()
 
 
+def der_header_flips(doc, keys, idx):
+    """every bit of the DER framing of element idx's signature: SEQUENCE tag/length, both INTEGER
+    tags/lengths and the first content byte of r and s"""
+    out = []
+    root_pub = keys["root"].pub()
+    sig = bytes.fromhex(doc["elements"][idx]["signature"])
+    rlen = sig[3]
+    positions = [0, 1, 2, 3, 4, 4 + rlen, 5 + rlen, 6 + rlen, len(sig) - 1]
+    for pos in positions:
+        if pos >= len(sig):
+            continue
+        for bit in range(8):
+            b = bytearray(sig)
+            b[pos] ^= 1 << bit
+            d = copy.deepcopy(doc)
+            d["elements"][idx]["signature"] = bytes(b).hex()
+            out.append(("derflip-%s-%d.%d" % (doc["elements"][idx]["name"], pos, bit), d, root_pub))
+    return out
+
+
 def v1_corruptions(rng, doc, keys):
     """single-point corruptions of a genuine chain: (label, document, root key hex)"""
     out = []
@@ -179,8 +199,9 @@ def v1_corruptions(rng, doc, keys):
 
 
 # ------------------------------------------------------------------ running the implementation
-def impl_load_validate(doc, root_obj_factory, tmpdir, with_resave=True):
-    """load through HSMCertificate.from_jsonfile, validate, to_dict.  Returns observation dict."""
+def impl_load_validate(doc, root_obj_factory, tmpdir, with_resave=True, prior_root_factory=None):
+    """load through HSMCertificate.from_jsonfile, validate, to_dict.  Returns observation dict.
+    prior_root_factory: first validate the same object against that other root (history)."""
     import os
     from admin.certificate import HSMCertificate
     path = os.path.join(tmpdir, "cert.json")
@@ -194,6 +215,11 @@ def impl_load_validate(doc, root_obj_factory, tmpdir, with_resave=True):
         return obs
     obs["loaded"] = True
     obs["cert"] = cert
+    if prior_root_factory is not None:
+        try:
+            cert.validate_and_get_values(prior_root_factory())
+        except BaseException:
+            pass
     if root_obj_factory is not None:
         results = []
         root = root_obj_factory()
